@@ -1602,7 +1602,7 @@ lyd_new_path_check_find_lypath(struct ly_path *path, const char *str_path, const
                 /* try to store the value */
                 LY_CHECK_RET(lyd_value_store(schema->module->ctx, &val, ((struct lysc_node_leaflist *)schema)->type,
                         value, value_len, 0, 0, NULL, format, NULL, LYD_HINT_DATA, schema, NULL));
-                ++((struct lysc_type *)val.realtype)->refcount;
+                LY_ATOMIC_INC_BARRIER(((struct lysc_type *)val.realtype)->refcount);
 
                 /* store the new predicate so that it is used when searching for this instance */
                 LY_ARRAY_NEW_RET(schema->module->ctx, path[u].predicates, pred, LY_EMEM);
